@@ -22,7 +22,8 @@ func init() {
 		Explanation: "Decides the locking and once-only discipline of IR building: the guarded-by relation is read from the struct declarations (a mutex directly above the fields it guards) in go/ir and lintcmd/cache, and every access to a guarded field outside construction happens with that mutex held, here or at every call site (R18.1); " +
 			"(*Package).build runs only through buildOnce.Do and Program.Build waits for every package (R18.2); each memo table of shared functions (method sets, on-demand methods, generic instances) is filled only on the miss edge of its own lookup with the function just created, which is tied to the creating builder's task and enqueued, while a hit registers a wait on the function found (R18.3); " +
 			"every function that creates a builder iterates it on all paths, and iterate marks its task done before waiting and waits before returning (R18.4); Function.build is cleared only by done, which buildFunction calls after building and only for unbuilt functions (R18.5). " +
-			"It does NOT decide equality of the IR across builds or the task-graph algorithm.",
+			"It does NOT decide equality of the IR across builds or the task-graph algorithm." +
+			" Also decided: lookup and insertion of a memo are one critical section (the mutex held at the lookup is not released before the insertion).",
 		RuleText:    "guarded-by pairs derived from declarations; lock-held dominance, guard-edge and must-pass-through path queries on the SSA CFG",
 		Assumptions: []string{"sync.Mutex, sync.Once and channel close/receive give the happens-before edges of the Go memory model", "builders are used by one goroutine (documented: builders are not thread-safe)"},
 		Run:         runC18,
